@@ -12,7 +12,7 @@ from rv.props import common as C
 
 LEVEL = "exploration"
 RULE = ("random operation scripts (length <= 40) over a pool of live arrays with operations new / add (positive and negative index) / copy / sort / add_empty / remove / concatenate / combine / "
-        "numbins / numitems / sums, items with zero, repeated and dyadic values, named and unnamed; plus bounded-exhaustive scripts: every sequence of <= 4 operations over a 9-operation alphabet "
+        "numbins / numitems / sums, items with zero, repeated and dyadic values: numbers, names with a value table, and plain objects tracked by identity; plus bounded-exhaustive scripts: every sequence of <= 4 operations over a 9-operation alphabet "
         "(thorough: <= 5) for both managers; non-trivial = script contains a copy followed by a mutation of either side and a sort of an array with distinct sums; distinct on the script")
 ASSUMPTIONS = ["arrays handed to add_empty / remove / concatenate are used only through the returned array afterwards (the discipline stated in the property)",
                "combine is never called with the same array on both sides (no algorithm does)"]
@@ -23,6 +23,15 @@ def plan(tier, seed):
     n = 16 if tier == "quick" else 48
     b = 20 if tier == "quick" else 70
     return [{"seed": seed * 1000 + i, "shard": i, "nshards": n, "budget_s": b, "exh_len": 4 if tier == "quick" else 5, "watchdog_s": b * 6 + 200} for i in range(n)]
+
+
+class Item:
+    """A plain, non-atomic item object (copy.deepcopy would clone it)."""
+    def __init__(self, name, value):
+        self.name, self.value = name, value
+
+    def __repr__(self):
+        return f"Item({self.name})"
 
 
 class Mismatch(Exception):
@@ -39,9 +48,20 @@ def run_script(script, ctx=None):
     A = C.algos()
     contents = script["manager"] == "contents"
     vmap = script.get("vmap") or {}
-    valueof = (lambda x: vmap[x]) if script.get("named") else (lambda x: x)
+    objects = bool(script.get("objects"))
+    if objects:
+        # items are plain (non-atomic) objects; the script refers to them by name, the model tracks IDENTITY: a bin must record the very objects that were added
+        objs = {k: Item(k, v) for k, v in vmap.items()}
+        key_of = {id(o): k for k, o in objs.items()}
+        real = objs.__getitem__
+        keyf = lambda o: key_of.get(id(o), "<foreign object %r>" % (o,))
+        valueof = lambda o: o.value
+    else:
+        real = lambda k: k
+        keyf = lambda o: o
+        valueof = (lambda x: vmap[x]) if script.get("named") else (lambda x: x)
     binner = (A.prtpy.BinnerKeepingContents if contents else A.prtpy.BinnerKeepingSums)(valueof)
-    val = lambda x: F(vmap[x]) if script.get("named") else F(x)
+    val = lambda x: F(vmap[x]) if (script.get("named") or objects) else F(x)
     live = {}      # id -> real array
     shadow = {}    # id -> list of lists of items
     nxt = 0
@@ -49,7 +69,7 @@ def run_script(script, ctx=None):
 
     def snap(arr):
         if contents:
-            return ([fx(s) for s in arr[0]], [list(b) for b in arr[1]])
+            return ([fx(s) for s in arr[0]], [[keyf(x) for x in b] for b in arr[1]])
         return [fx(s) for s in arr]
 
     def check_all(step, op):
@@ -62,8 +82,8 @@ def run_script(script, ctx=None):
                 raise Mismatch("sums_differ_from_model", {"step": step, "op": op, "array": i, "sums": [float(s) for s in sums], "model": [[str(x) for x in b] for b in sh]})
             if contents:
                 lists = arr[1]
-                if len(lists) != len(sh) or any(Counter(map(repr, a)) != Counter(map(repr, b)) for a, b in zip(lists, sh)):
-                    raise Mismatch("contents_differ_from_model", {"step": step, "op": op, "array": i, "lists": [[str(x) for x in b] for b in lists], "model": [[str(x) for x in b] for b in sh]})
+                if len(lists) != len(sh) or any(Counter(repr(keyf(x)) for x in a) != Counter(map(repr, b)) for a, b in zip(lists, sh)):
+                    raise Mismatch("contents_differ_from_model", {"step": step, "op": op, "array": i, "lists": [[str(keyf(x)) for x in b] for b in lists], "model": [[str(x) for x in b] for b in sh]})
 
     for step, op in enumerate(script["ops"]):
         name = op[0]
@@ -72,7 +92,7 @@ def run_script(script, ctx=None):
             live[nxt] = binner.new_bins(op[1]); shadow[nxt] = [[] for _ in range(op[1])]; nxt += 1
         elif name == "add":
             _, a, item, idx = op
-            binner.add_item_to_bin(live[a], item, idx)
+            binner.add_item_to_bin(live[a], real(item), idx)
             shadow[a][idx].append(item)
         elif name == "copy":
             a = op[1]
@@ -89,10 +109,10 @@ def run_script(script, ctx=None):
             if any(sums[i] > sums[i + 1] for i in range(len(sums) - 1)):
                 raise Mismatch("sort_left_sums_decreasing", {"step": step, "op": op, "sums": list(map(float, sums))})
             if contents:
-                pairs_after = Counter((s, tuple(sorted(map(repr, b)))) for s, b in zip(sums, arr[1]))
+                pairs_after = Counter((s, tuple(sorted(repr(keyf(x)) for x in b))) for s, b in zip(sums, arr[1]))
                 if pairs_after != pairs_before:
                     raise Mismatch("sort_changed_the_pairs_sum_contents", {"step": step, "op": op, "after": [[float(s), list(map(str, b))] for s, b in zip(sums, arr[1])]})
-                shadow[a] = [list(b) for b in arr[1]]
+                shadow[a] = [[keyf(x) for x in b] for b in arr[1]]
             else:
                 if Counter(sums) != Counter(s for s, _ in pairs_before.elements()):
                     raise Mismatch("sort_changed_the_sums", {"step": step, "op": op, "sums": list(map(float, sums))})
@@ -160,7 +180,8 @@ def judge(script, ctx):
 
 def gen_script(rng, manager, maxlen=40):
     """Generate a script from the shadow model alone (tracks sizes, contents, liveness)."""
-    named = rng.random() < 0.5
+    kind = rng.choice(["numbers", "names", "objects"])
+    named = kind != "numbers"
     vmap = {}
     pool_vals = [0, 0, 1, 2, 3, 3, 5, 8, 13, 0.5, 2.25, 20]
     cnt = [0]
@@ -227,7 +248,7 @@ def gen_script(rng, manager, maxlen=40):
             if sizes[a] == 0:
                 continue
             ops.append(["numitems", a, rng.randrange(sizes[a])])
-    return {"manager": manager, "named": named, "vmap": vmap, "ops": ops, "nontrivial": copied_then_mutated and sorted_distinct, "cls": "random"}
+    return {"manager": manager, "named": kind == "names", "objects": kind == "objects", "vmap": vmap, "ops": ops, "nontrivial": copied_then_mutated and sorted_distinct, "cls": "random/" + kind}
 
 
 def exhaustive_scripts(manager, maxlen, shard, nshards):
